@@ -101,7 +101,7 @@ def render(elements):
                                            e.get("after", ""), e.get("text", "x"), "</a>" if e.get("closed", True) else "")
             doc.append(tag)
             if e.get("sep", " ") in (" ", "\n", "\t", "\r", "\x0c", "  ") and not e.get("in_script") and e.get("tag", "a").lower() == "a":
-                exp.append(unescape(raw.strip()))
+                exp.append(unescape(raw.strip()).strip())   # 'whitespace-stripped and HTML-unescaped': also whitespace written as a character reference
         elif k == "script":
             inner, inner_exp = render([dict(x, in_script=e.get("real", True)) for x in e["inner"]])
             doc.append("<%s%s>%s</%s>" % (e.get("tag", "script"), e.get("attrs", ""), inner, e.get("tag", "script")))
@@ -181,7 +181,7 @@ def eval_rawdoc(case):
     if s != b:
         out.append(("C17/urls/str-vs-bytes", "urls_from_html(%r): str gives %r, utf-8 bytes give %r" % (doc, s, b)))
     for u in s:
-        if u != u.strip() or u != unescape(u) and "&" not in unescape(u):
+        if u != u.strip():   # (whether u is "unescaped" cannot be judged from u alone: '&amp;mp;' legitimately yields '&mp;')
             out.append(("C17/urls/not-stripped", "urls_from_html(%r) yielded %r" % (doc, u)))
             break
     res = {}
@@ -251,7 +251,7 @@ TRIGGERS = {"markup-inside-another-attribute": (_tricky, _neutralise_tricky)}
 EVALUATORS = {"html": eval_html, "rawdoc": eval_rawdoc}
 
 BASE = "http://www.site.com/dir/page.html"
-HREFS = ["http://a.com:00008/x", "http://lemonde.fr:99999/x", "//[x", "http://[@lemonde.fr/", "http://[::1", "http://a.com:abc/", "http://[::1]:8080/ok", "\n  http://a.com/nl\n", "http://a.com/?id=3&amp;amp;copy=2", "/a&amp;#x2F;b&amp;lt;", "//intranet/d", "//static.site.zzzz/c", "//localhost/x", "http://a.com/x", "https://b.org/y?z=1&amp;w=2", "//c.net/p", "/rel", "rel/x", "../up", "#frag", "javascript:void(0)", "mailto:x@y.z", "",
+HREFS = ["&#32;http://a.com/ent&#x20;", "&#9;/rel-ent", "http://a.com:00008/x", "http://lemonde.fr:99999/x", "//[x", "http://[@lemonde.fr/", "http://[::1", "http://a.com:abc/", "http://[::1]:8080/ok", "\n  http://a.com/nl\n", "http://a.com/?id=3&amp;amp;copy=2", "/a&amp;#x2F;b&amp;lt;", "//intranet/d", "//static.site.zzzz/c", "//localhost/x", "http://a.com/x", "https://b.org/y?z=1&amp;w=2", "//c.net/p", "/rel", "rel/x", "../up", "#frag", "javascript:void(0)", "mailto:x@y.z", "",
          "http://bad.zzzz/x", BASE, "HTTP://A.COM/x", "http://a.com/x#frag", "http://a.com/a&#x2F;b", "http://a.com/é", "/p?q=1&amp;r=2",
          "http://a.com:80/x/../x", "http://www.site.com/dir/page.html#top", "page.html", "?q=2", "http://a.com/%7Ex", "http://a.com/~x", "ftp://f.org/z",
          "  http://a.com/padded  ", "http://localhost:8000/x", "tel:+33", "/a:b", "http://xn--9ca.fr/", "http://é.fr/"]
